@@ -2618,6 +2618,10 @@ class InFramesetPhase(Phase):
 
     def processCharacters(self, token):
         self.parser.parseError("unexpected-char-in-frameset")
+        # Only the non-space characters are ignored
+        data = "".join([c for c in token["data"] if c in spaceCharacters])
+        if data:
+            self.tree.insertText(data)
 
     def startTagFrameset(self, token):
         self.tree.insertElement(token)
@@ -2673,6 +2677,10 @@ class AfterFramesetPhase(Phase):
 
     def processCharacters(self, token):
         self.parser.parseError("unexpected-char-after-frameset")
+        # Only the non-space characters are ignored
+        data = "".join([c for c in token["data"] if c in spaceCharacters])
+        if data:
+            self.tree.insertText(data)
 
     def startTagNoframes(self, token):
         return self.parser.phases["inHead"].processStartTag(token)
